@@ -29,7 +29,7 @@ func shCovers(c *shCase, kind string, k int, cls string) bool {
 	if kind == "in" {
 		own := k == c.idx
 		switch cls {
-		case "hash", "index":
+		case "hash", "index", "index-hi30", "index-hi31":
 			return own || !acp
 		case "pegin":
 			if c.algo == "v0" {
@@ -109,7 +109,7 @@ func cloneSh(c *shCase) *shCase {
 // C02 on one (transaction, algorithm, index, hash type): the whole perturbation matrix
 func checkC02Sh(t *Toks) string {
 	c := readSh(t)
-	if !wfTx(c.tx) {
+	if !wfTxHash(c.tx) {
 		return "SKIP not-wf"
 	}
 	if c.idx >= len(c.tx.Inputs) {
@@ -162,7 +162,7 @@ func checkC02Sh(t *Toks) string {
 		if d.digest() != d0 { // warms whatever the object remembers, before it is edited in place
 			return fail(c.algo+".digest", "copy-digests-differently")
 		}
-		if !p.apply(d.tx) || !wfTx(d.tx) {
+		if !p.apply(d.tx) || !wfTxHash(d.tx) {
 			continue
 		}
 		var covered bool
